@@ -511,3 +511,41 @@ mod tests {
         assert_eq!(data.0, decoded.0);
     }
 }
+
+#[cfg(all(feature = "verif", not(target_feature = "avx2")))]
+impl U31x8 {
+    pub const fn verif_from_array(data: [U31; SIMD_SIZE]) -> Self {
+        Self(data)
+    }
+
+    pub const fn verif_to_array(&self) -> [U31; SIMD_SIZE] {
+        self.0
+    }
+}
+
+#[cfg(all(feature = "verif", not(target_feature = "avx2")))]
+impl Scorer {
+    pub const fn verif_from_parts(bases: Vec<u32>, checks: Vec<u32>, costs: Vec<i32>) -> Self {
+        Self {
+            bases,
+            checks,
+            costs,
+        }
+    }
+
+    pub fn verif_bases(&self) -> &[u32] {
+        &self.bases
+    }
+
+    pub fn verif_checks(&self) -> &[u32] {
+        &self.checks
+    }
+
+    pub fn verif_costs(&self) -> &[i32] {
+        &self.costs
+    }
+
+    pub fn verif_retrieve_cost(&self, key1: U31, key2: U31) -> Option<i32> {
+        self.retrieve_cost(key1, key2)
+    }
+}
